@@ -549,7 +549,10 @@ def w7(run, roles):
                    construct="process_tpmu child")
             continue
         c = yfs[0][0]
-        okc = len(c.args) == 2 and match(c.args[0], f"{F}.type") is not None and match(c.args[1], f"path / PathNode({F}.name)") is not None
+        # (the name of the field found by name is that name: summaries spell `field.name` as the looked-up name itself)
+        NAME = f"{SEL}[{key}]"
+        okc = len(c.args) == 2 and match(c.args[0], f"{F}.type") is not None and (
+            match(c.args[1], f"path / PathNode({F}.name)") is not None or match(c.args[1], f"path / PathNode({NAME})") is not None)
         run.ob("W5", okc, "process_tpmu: decodes field.type at path / PathNode(field.name)",
                f"decodes `{norm(c.args[0])[:80]}` at `{norm(c.args[1])[:80]}`" if len(c.args) == 2 else "positional arguments changed",
                module=mod, node=yfs[0][1], func=fn.name, construct="process_tpmu child")
@@ -564,7 +567,7 @@ def w7(run, roles):
         cnt = kws.get("count")
         has_cnt = cnt is not None and not (isinstance(cnt, ast.Constant) and cnt.value is None)
         if islist:
-            okl = has_cnt and match(cnt, f"tpm_type._list_size[{F}.name]") is not None
+            okl = has_cnt and (match(cnt, f"tpm_type._list_size[{F}.name]") is not None or match(cnt, f"tpm_type._list_size[{NAME}]") is not None)
             run.ob("W6", okl, "union member of list type: count = _list_size[member]", f"count is `{norm(cnt) if cnt is not None else None}`",
                    module=mod, node=yfs[0][1], func=fn.name, construct="union list arm count")
         else:
